@@ -197,7 +197,7 @@ func (t *typeValidator) Validate(data interface{}) *Result {
 		return errorHelp.sErr(errors.InvalidType(t.Path, t.In, t.Format, format), t.Options.recycleResult)
 	}
 
-	if !(t.Type.Contains(numberType) || t.Type.Contains(integerType)) && t.Format != "" && (kind == reflect.String || kind == reflect.Slice) {
+	if !(t.Type.Contains(numberType) || t.Type.Contains(integerType)) && t.Format != "" && (kind == reflect.String || (kind == reflect.Slice && schType == stringType)) {
 		return emptyResult
 	}
 
